@@ -317,6 +317,7 @@ impl Gen {
     if cfg.backend != 0 && r.chance(25) {
       cfg.mm = r.pick(&[1u8, 1, 2, 3, 4, 7]);
     }
+    let tight = cfg.mm & 1 != 0 && r.chance(30);
     let prefix = cfg.prefix();
     let base: u32 = if p == Profile::Buf {
       r.pick(&[64, 96, 128, 200, 256])
@@ -333,6 +334,10 @@ impl Gen {
         cfg.reserved = r.pick(&[ps - 1, ps, ps + 3, ps + 904, 2 * ps, 2 * ps + 1]);
         cfg.cap = cfg.prefix() + r.pick(&[64, 200, ps - 7, ps, ps + 9]);
       }
+    }
+    if tight {
+      // with the header pages locked: capacities that just hold the prefix
+      cfg.cap = prefix + r.pick(&[0u32, 1, 7, 8, 9, 16, 40]);
     }
     if r.chance(2) {
       // degenerate capacities: construction errors
